@@ -276,7 +276,82 @@ fn read_stats(path: &Path) -> (i64, bool, String) {
     (get("matched").parse().unwrap_or(0), get("fired") == "1", get("fired_call"))
 }
 
+pub struct PreparedWorld {
+    pub inv: Invocation,
+    pub script: Script,
+    pub side: std::path::PathBuf,
+    pub markers: std::path::PathBuf,
+    pub bp_dir_value: String,
+    pub layers_arg: String,
+    pub app_dir: String,
+}
+
 pub fn execute(s: &Scenario, root: &Path) -> Result<Executed, String> {
+    let w = prepare_world(s, root)?;
+    run_prepared(s, root, w)
+}
+
+/// Several worlds, one process: each invocation goes through the public phase entry points of
+/// the same process image, so anything cached across invocations shows up in the later contexts.
+pub fn execute_multi(list: &[Scenario], base: &Path) -> Result<Vec<Executed>, String> {
+    let mut worlds = Vec::new();
+    for (i, s) in list.iter().enumerate() {
+        worlds.push(prepare_world(s, &base.join(format!("m{i}")))?);
+    }
+    let multi: Vec<Value> = list
+        .iter()
+        .zip(&worlds)
+        .map(|(s, w)| {
+            json!({
+                "build": s.build_phase,
+                "cwd": w.inv.cwd,
+                "env": w.inv.env,
+                "args": w.inv.args.iter().map(|a| a.to_string_lossy().into_owned()).collect::<Vec<_>>(),
+                "script": w.script,
+            })
+        })
+        .collect();
+    let file = base.join("multi.json");
+    std::fs::write(&file, serde_json::to_string(&multi).map_err(|e| e.to_string())?).map_err(|e| e.to_string())?;
+    let out = std::process::Command::new(super::lifecycle::simbp_path())
+        .env_clear()
+        .env("PATH", "/usr/bin:/bin")
+        .env("VERIF_SIMBP_MULTI", &file)
+        .current_dir(base)
+        .output()
+        .map_err(|e| format!("spawn simbp (multi): {e}"))?;
+    let stdout = String::from_utf8_lossy(&out.stdout);
+    let codes: Vec<i32> = stdout
+        .lines()
+        .find_map(|l| l.strip_prefix("codes="))
+        .map(|l| l.trim_matches(|c| c == '[' || c == ']').split(',').filter_map(|x| x.trim().parse().ok()).collect())
+        .unwrap_or_default();
+    let mut res = Vec::new();
+    for (i, (s, w)) in list.iter().zip(worlds).enumerate() {
+        let dump_path = w.markers.join(if s.build_phase { "build_context.json" } else { "detect_context.json" });
+        let dump = std::fs::read_to_string(dump_path).ok().and_then(|t| serde_json::from_str(&t).ok());
+        let markers = super::lifecycle::read_markers(&w.markers);
+        res.push(Executed {
+            result: PhaseResult {
+                exit: codes.get(i).copied().or(out.status.code()),
+                signal: None,
+                markers,
+                stderr_head: String::from_utf8_lossy(&out.stderr).chars().take(300).collect(),
+                timed_out: false,
+            },
+            dump,
+            bp_dir_value: w.bp_dir_value,
+            layers_arg: w.layers_arg,
+            app_dir: w.app_dir,
+            fault_fired: false,
+            fault_call: String::new(),
+            spawns: u64::from(i == 0),
+        });
+    }
+    Ok(res)
+}
+
+pub fn prepare_world(s: &Scenario, root: &Path) -> Result<PreparedWorld, String> {
     let io = |e: std::io::Error| e.to_string();
     let mut d = Dirs::create(root).map_err(io)?;
     // the scripted buildpack's own bookkeeping lives outside the prefix that may be faulted
@@ -362,13 +437,35 @@ pub fn execute(s: &Scenario, root: &Path) -> Result<Executed, String> {
         },
     };
     let arg0 = if s.build_phase { "build" } else { "detect" };
-    let mut inv = Invocation {
+    let inv = Invocation {
         arg0: arg0.into(),
         args,
         env,
         cwd: d.app.clone(),
         shim_plan: None,
     };
+    Ok(PreparedWorld {
+        inv,
+        script,
+        side,
+        markers: d.markers.clone(),
+        bp_dir_value,
+        layers_arg,
+        app_dir: d.app.display().to_string(),
+    })
+}
+
+fn run_prepared(s: &Scenario, root: &Path, w: PreparedWorld) -> Result<Executed, String> {
+    let PreparedWorld {
+        mut inv,
+        script,
+        side,
+        markers,
+        bp_dir_value,
+        layers_arg,
+        app_dir,
+    } = w;
+    let arg0 = if s.build_phase { "build" } else { "detect" };
     let stats = side.join("shim-stats.txt");
     let script_path = side.join("script.json");
     let mut spawns = 0;
@@ -395,8 +492,8 @@ pub fn execute(s: &Scenario, root: &Path) -> Result<Executed, String> {
             inv.shim_plan = Some(format!("{base_plan};mode=error;k={k};errno={}", libc::EIO));
         }
     }
-    let _ = std::fs::remove_file(d.markers.join("detect_context.json"));
-    let _ = std::fs::remove_file(d.markers.join("build_context.json"));
+    let _ = std::fs::remove_file(markers.join("detect_context.json"));
+    let _ = std::fs::remove_file(markers.join("build_context.json"));
     let result = run_phase(&inv, &script, &script_path)?;
     spawns += 1;
     if inv.shim_plan.as_deref().is_some_and(|p| p.contains("mode=error")) {
@@ -404,14 +501,14 @@ pub fn execute(s: &Scenario, root: &Path) -> Result<Executed, String> {
         fault_fired = fired;
         fault_call = call;
     }
-    let dump_path = d.markers.join(if s.build_phase { "build_context.json" } else { "detect_context.json" });
+    let dump_path = markers.join(if s.build_phase { "build_context.json" } else { "detect_context.json" });
     let dump = std::fs::read_to_string(dump_path).ok().and_then(|t| serde_json::from_str(&t).ok());
     Ok(Executed {
         result,
         dump,
         bp_dir_value,
         layers_arg,
-        app_dir: d.app.display().to_string(),
+        app_dir,
         fault_fired,
         fault_call,
         spawns,
@@ -548,6 +645,19 @@ pub fn worker(args: &[String]) -> i32 {
     if let Some(file) = arg_after(args, "--minimise").or_else(|| arg_after(args, "--replay")) {
         let text = std::fs::read_to_string(&file).unwrap_or_else(|e| harness_fail(&e.to_string()));
         let mut rep: E2Replay = serde_json::from_str(&text).unwrap_or_else(|e| harness_fail(&e.to_string()));
+        if let Some(list) = rep.scenario.get("multi") {
+            let list: Vec<Scenario> = serde_json::from_value(list.clone()).unwrap_or_else(|e| harness_fail(&e.to_string()));
+            let results = execute_multi(&list, &root).unwrap_or_else(|e| harness_fail(&e));
+            let failing = list.iter().zip(&results).any(|(s, x)| !judge(s, x).is_empty());
+            if args.iter().any(|a| a == "--replay") {
+                println!("RESULT {}", json!({"reproduced": failing}));
+            } else {
+                println!("RESULT {}", serde_json::to_string(&rep).unwrap_or_default());
+            }
+            let _ = crate::snap::wipe(&scratch);
+            let _ = std::fs::remove_dir(&scratch);
+            return 0;
+        }
         let mut s: Scenario = serde_json::from_value(rep.scenario.clone()).unwrap_or_else(|e| harness_fail(&e.to_string()));
         let run = |s: &Scenario| -> Vec<String> {
             match execute(s, &root) {
@@ -590,6 +700,53 @@ pub fn worker(args: &[String]) -> i32 {
             break;
         }
         let seed = run_seed(crate::global_seed(), "e2-c06", i);
+        if i % 5 == 4 {
+            // 2-3 well-formed worlds through one process
+            let n = 2 + (seed % 2) as usize;
+            let list: Vec<Scenario> = (0..n)
+                .map(|k| {
+                    let mut s = generate(crate::rng::splitmix64(seed ^ k as u64));
+                    s.read_fault = None;
+                    s.bad_store = 0;
+                    for e in &mut s.entries {
+                        if let EntryKind::File(c) | EntryKind::LinkToFile(c) = &mut e.kind {
+                            if !utf8(c) {
+                                *c = b"valid".to_vec();
+                            }
+                        }
+                    }
+                    s
+                })
+                .collect();
+            match execute_multi(&list, &root) {
+                Err(e) => sum.harness_errors.push(format!("multi scenario {i}: {e}")),
+                Ok(results) => {
+                    sum.runs += 1;
+                    sum.spawns += 1;
+                    sum.probe("several_invocations_in_one_process");
+                    sum.cells.insert(format!("multi|{n}"));
+                    sum.nontrivial.insert(format!("multi|{n}|{}", list.iter().map(|s| if s.build_phase { 'b' } else { 'd' }).collect::<String>()));
+                    for (k, (s, x)) in list.iter().zip(&results).enumerate() {
+                        let mut d = judge(s, x);
+                        if !d.is_empty() && sum.violations.len() < 4 {
+                            d.insert(0, format!("invocation #{k} of {n} in one process:"));
+                            sum.violations.push(E2Replay {
+                                engine: "e2-c06".into(),
+                                property: "C06".into(),
+                                seed,
+                                index: i,
+                                scenario: json!({"multi": list}),
+                                signature: format!("C06:multi:{}", signature(&d[1..])),
+                                detail: d,
+                                minimised: false,
+                            });
+                            break;
+                        }
+                    }
+                }
+            }
+            continue;
+        }
         let s = generate(seed);
         match execute(&s, &root) {
             Err(e) => sum.harness_errors.push(format!("scenario {i}: {e}")),
